@@ -244,6 +244,15 @@ func (chain *Chain) SimCacheSnapshots() []*common.Snapshot {
 	return append([]*common.Snapshot{}, chain.State.CacheRound.Snapshots...)
 }
 
+// SimLiveRoundAsFinal is what the live node computes when it closes its
+// current cache round now (nil while the round is empty).
+func (chain *Chain) SimLiveRoundAsFinal() *FinalRound {
+	if chain.State == nil || chain.State.CacheRound == nil {
+		return nil
+	}
+	return chain.State.CacheRound.asFinal()
+}
+
 func (node *Node) SimElect(operation byte, ts uint64) crypto.Hash {
 	return node.electSnapshotNode(operation, ts)
 }
